@@ -1,10 +1,10 @@
 #!/bin/sh
 # run the repository's pinned suite (guard off: there are no hooks) and compare with BASELINE.json
-cd /repo && /venv/bin/python -m pytest -ra -q -p no:cacheprovider --timeout=900 --continue-on-collection-errors --junitxml=/tmp/junit_baseline.xml > /tmp/pytest_baseline.log 2>&1
+mkdir -p /verif/out; cd /repo && /venv/bin/python -m pytest -ra -q -p no:cacheprovider --timeout=900 --continue-on-collection-errors --junitxml=/verif/out/junit_baseline.xml > /verif/out/pytest_baseline.log 2>&1
 git -C /repo checkout -- htmlcov coverage.xml 2>/dev/null
 /venv/bin/python - <<'PY'
 import xml.etree.ElementTree as ET, json, sys
-r=ET.parse('/tmp/junit_baseline.xml').getroot()
+r=ET.parse('/verif/out/junit_baseline.xml').getroot()
 base=set(json.load(open('/root/.vp/BASELINE.json'))['stable_pass'])
 passed=set()
 for tc in r.iter('testcase'):
